@@ -190,6 +190,8 @@ func init() {
 				Bound: "every graph built by <=3 gadget insertions (path, fan-in/out, 3-/4-cycle, diamond, long-edge triangle; shapes with up to 13 edges)"},
 			{Name: "seeds", Space: spaceSeeded(seedWitnesses, tierPick(tier, 1, 2)), Eval: stdEval("C10", staticGrid(g), or),
 				Bound: "all states within 1 (thorough 2) edit operations of the recorded witnesses"},
+			{Name: "pivot-rich-neighbourhood", Space: spaceConcat(spaceSeeded(pivotRichSeeds, tierPick(tier, 1, 2)), spaceAllRotations(spaceSeeded(pivotRichSeeds, 1))), Eval: stdEval("C10", staticGrid(gd), or),
+				Bound: fmt.Sprintf("19 recorded DAGs on which the simplex makes 4..5 pivots (8..10 nodes, 11..15 edges): every state within %d edit operations {delete, duplicate, reverse, swap, add an edge} of them, and every rotation of the edge list of every state within 1 edit", tierPick(tier, 1, 2))},
 			{Name: "families", Space: spaceList(c10Families()), Eval: stdEval("C10", staticGrid(gd), or),
 				Bound: "K(a,b) a,b<=5, ladders, binary trees, chains with cross links (optimality by dual certificate only)"},
 			{Name: "parallel-chains", Space: spaceList(thetaFamilies(tierPick(tier, 5, 4), tier == "thorough")), Eval: stdEval("C10", staticGrid(gd), or),
